@@ -71,12 +71,13 @@ var All = []*Prop{
 	},
 	{
 		ID:    "C11",
-		Rules: []*core.Rule{rules.Revoked, rules.TrapPost},
+		Rules: []*core.Rule{rules.Revoked, rules.TrapPost, rules.TrapInvariant},
 		Explanation: "R-REVOKED ('revoked proxies throw on every operation'): in each of the 41 objectImpl methods declared on proxyObject every dereference of p.target and every call receiving it is dominated by p.checkHandler() (directly or through a helper that always calls it), or by an explicit nil test, or the method is an audited exception; and proxyObject overrides every key-kinded and structural internal method (no silent fallback to baseObject). " +
-			"R-TRAPPOST ('invariant-breaking handlers are rejected' — the structural half): for each key-kinded trap family (defineOwnProperty, hasProperty, hasOwnProperty, getOwnProp, get, setOwn, setForeign, delete) the Str, Idx and Sym variants call the same proxy check helpers, handler traps and target operations modulo key kind, and validate against the target's getOwnProp of their own key kind.",
-		Technique:  "dominance of a revocation check over every target use (SSA, with helper summaries); sibling callee-set agreement across key kinds; method-set override completeness",
+			"R-TRAPPOST ('invariant-breaking handlers are rejected' — the structural half): for each key-kinded trap family (defineOwnProperty, hasProperty, hasOwnProperty, getOwnProp, get, setOwn, setForeign, delete) the Str, Idx and Sym variants call the same proxy check helpers, handler traps and target operations modulo key kind, and validate against the target's getOwnProp of their own key kind. " +
+			"R-TRAPINVARIANT: two invariant checks whose shape is decidable - in proxyDeleteCheck every normally returning path with trapResult true and a non-nil target property passes target.self.isExtensible() (both the configurable and the extensible test apply to every existing property, not only to accessor/flagged ones); in proxyOwnKeys the value tested for non-configurability of an omitted key can come from target.getOwnProp (key iterators of most kinds carry no value).",
+		Technique:  "dominance of a revocation check over every target use (SSA, with helper summaries); sibling callee-set agreement across key kinds; method-set override completeness; must-pass-through with excusing edges; value-origin (phi closure) check",
 		DesignRef:  "DESIGN.md section 4, C11",
-		NotCovered: "whether each post-check's boolean conditions are the specification's (__isCompatibleDescriptor, proxyOwnKeys completeness, proxyDeleteCheck): decision tables over descriptor values; forwarding equivalence as a whole",
+		NotCovered: "whether each post-check's boolean conditions are the specification's (__isCompatibleDescriptor, the rest of proxyOwnKeys completeness): decision tables over descriptor values; forwarding equivalence as a whole",
 	},
 	{
 		ID:    "C06",
